@@ -304,7 +304,53 @@ def t_alts(n, empty_cols):
     return alts
 
 
+# Fill kinds of the logit table: -1 generic; p >= 0 generic with -inf at row-major position p;
+# ["rs", variant, cell] 'row scales': batch row r gets the offset T_ROW_OFFSETS[(r + variant) % 4] added to its
+# generic logits (rows hundreds of nats apart: a stabilising shift must be per row), and, when cell >= 0, the
+# sampled-block cell ``cell`` of every LOW row (negative offset) is -inf.
+T_ROW_OFFSETS = (0.0, -800.0, -2000.0, 700.0)
+
+
+def t_is_rs(fill):
+    return isinstance(fill, (list, tuple))
+
+
+def t_fill_tag(fill):
+    if t_is_rs(fill):
+        return "rs-inf" if fill[2] >= 0 else "rs"
+    return "inf" if fill >= 0 else "gen"
+
+
+def t_fill_has_inf(fill):
+    return fill[2] >= 0 if t_is_rs(fill) else fill >= 0
+
+
+def t_row_offsets(B, variant):
+    return [T_ROW_OFFSETS[(r + variant) % 4] for r in range(B)]
+
+
+def t_fill_struct(sizes, mask, fill):
+    """(empty columns per batch row, rows whose draws deviate or None for all rows) -- structural, seed-free."""
+    batch, event, B, n = t_layout(sizes, mask)
+    if t_is_rs(fill):
+        offs = t_row_offsets(B, fill[1])
+        empty = [({fill[2]} if (fill[2] >= 0 and offs[r] < 0) else set()) for r in range(B)]
+        return empty, None
+    if fill >= 0:
+        erow, ecol = t_cell_of(sizes, mask, fill)
+        return [({ecol} if r == erow else set()) for r in range(B)], {erow}
+    return [set() for _ in range(B)], None
+
+
+def t_rs_fills(tier, B, n):
+    variants = (0, 1) if tier == "quick" else (0, 1, 2, 3)
+    cells = [-1, 0] + (list(range(1, n)) if (n <= 4 or (tier != "quick" and n <= 9)) else [])
+    return [["rs", v, c] for v in variants for c in cells]
+
+
 def t_sample_configs(tier, cells, fillpos):
+    if t_is_rs(fillpos):
+        return [[], [2]]
     if fillpos < 0:
         return [[], [2], [2, 3]]
     if tier == "quick":
@@ -321,6 +367,11 @@ def t_groups(tier):
                 for fillpos in [-1] + list(range(cells)):
                     for ss in t_sample_configs(tier, cells, fillpos):
                         yield list(sizes), mask, fillpos, ss
+                batch, event, B, n = t_layout(sizes, mask)
+                if B >= 2:  # at least one non-sampled batch input with >= 2 rows
+                    for fill in t_rs_fills(tier, B, n):
+                        for ss in t_sample_configs(tier, cells, fill):
+                            yield list(sizes), mask, fill, ss
 
 
 def t_pair_group(sizes, mask, fillpos, ss, D, nalt):
@@ -334,14 +385,13 @@ def t_cases(tier):
         batch, event, B, n = t_layout(sizes, mask)
         S = int(np.prod(ss)) if ss else 1
         D = S * B
-        if fillpos >= 0:
-            erow, ecol = t_cell_of(sizes, mask, fillpos)
-        else:
-            erow, ecol = -1, -1
+        empties, dev_rows = t_fill_struct(sizes, mask, fillpos)
         # alternatives per batch row
-        alts = [t_alts(n, {ecol} if r == erow else set()) for r in range(B)]
-        # draws that deviate: all (generic fill) or those of the row holding the -inf cell
-        draws = [d for d in range(D) if fillpos < 0 or d % B == erow]
+        alts = [t_alts(n, empties[r]) for r in range(B)]
+        # draws that deviate: all (generic / row-scales fill) or those of the row holding the -inf cell
+        draws = [d for d in range(D) if dev_rows is None or d % B in dev_rows]
+        if t_is_rs(fillpos) and ss and (tier == "quick" or max(sizes) > 3):
+            draws = []  # row scales with particles: the 0-deviation execution only
         out.append(["T", sizes, mask, fillpos, ss, [], 1])
         for d in draws:
             for alt in alts[d % B][1:]:
@@ -349,7 +399,7 @@ def t_cases(tier):
                 out.append(["T", sizes, mask, fillpos, ss, [[d] + alt], fr])
         if tier == "thorough":
             nalt = max(len(a) for a in alts) - 1
-            if t_pair_group(sizes, mask, fillpos, ss, len(draws), nalt):
+            if not t_is_rs(fillpos) and t_pair_group(sizes, mask, fillpos, ss, len(draws), nalt):
                 for d1, d2 in itertools.combinations(draws, 2):
                     out.append(["TP", sizes, mask, fillpos, ss, d1, d2])
     return out
@@ -362,7 +412,7 @@ def t_setup(sizes, mask, fillpos, ss, seed, share=None, fresh=False):
     """Reference tables of one (signature, sampled subset, fill, sample sizes) and the Tensor under test.
 
     share: an earlier setup whose Tensor OBJECT (and data) is reused (history family); fresh: bypass the cache."""
-    key = (tuple(sizes), mask, fillpos, tuple(ss), seed)
+    key = (tuple(sizes), mask, repr(fillpos), tuple(ss), seed)
     cached = share is None and not fresh
     if cached and key in _T_CACHE:
         return _T_CACHE[key]
@@ -376,7 +426,18 @@ def t_setup(sizes, mask, fillpos, ss, seed, share=None, fresh=False):
         data = share["data"]
     else:
         data = generic_fill(7, sizes, seed) - 1.0
-        if fillpos >= 0:
+        if t_is_rs(fillpos):
+            batch, event, B, n = t_layout(sizes, mask)
+            perm = batch + event
+            tab = np.transpose(data, perm).reshape(B, n).copy()
+            offs = t_row_offsets(B, fillpos[1])
+            for r in range(B):
+                tab[r] += offs[r]
+                if fillpos[2] >= 0 and offs[r] < 0:
+                    tab[r, fillpos[2]] = NEG_INF
+            tab = tab.reshape(tuple(sizes[i] for i in perm))
+            data = np.ascontiguousarray(np.transpose(tab, np.argsort(perm)))
+        elif fillpos >= 0:
             data = data.copy()
             data.flat[fillpos] = NEG_INF
     batch, event, B, n = t_layout(sizes, mask)
@@ -509,7 +570,7 @@ def t_read(st, y):
 
 
 def t_features(st, case, alt, extra):
-    f = {"has_neg_inf": case[3] >= 0, "alt": alt}
+    f = {"has_neg_inf": bool(t_fill_has_inf(case[3])), "fill": t_fill_tag(case[3]), "alt": alt}
     f.update(extra)
     return f
 
@@ -695,7 +756,7 @@ def t_exec(key, case, st, devs, fr):
     except Unreadable as e:
         return core.decline(key, "unreadable-result:" + str(e))
     ev_sizes = [st["sizes"][i] for i in event]
-    nontrivial = n >= 2 or fillpos >= 0
+    nontrivial = n >= 2 or t_fill_has_inf(fillpos)
     zero_rows = 0
     for d, idx in enumerate(itertools.product(*[range(s) for s in shape])):
         row = d % B
@@ -785,7 +846,7 @@ def t_exec(key, case, st, devs, fr):
                     via="reduce",
                 )
     cls = "T:k%d:e%d:s%d:%s:%s" % (
-        len(st["sizes"]), len(event), len(st["ss"]), "inf" if fillpos >= 0 else "gen",
+        len(st["sizes"]), len(event), len(st["ss"]), t_fill_tag(fillpos),
         "+".join(sorted(set(a[0] for a in alts_used))),
     )
     counters = {"T_executions": 2, "T_draws_checked": D}
@@ -2141,7 +2202,12 @@ def bounds(tier):
         },
         "tensor_sampling": {
             "inputs": "1-3", "sizes": "1-3" if quick else "1-4",
-            "fills": "generic; -inf in every single cell position",
+            "fills": "generic; -inf in every single cell position; 'row scales' for signatures with a non-sampled batch "
+                     "input of >= 2 rows: batch row r shifted by %s[(r + variant) %% 4], variant in %s, alone and with -inf in "
+                     "cell c of every low row, c in {0%s}; sample inputs () and (p:2)%s"
+                     % (list(T_ROW_OFFSETS), "{0,1}" if quick else "{0,1,2,3}",
+                        ", 1..n-1 when n <= 4" if quick else ", 1..n-1 when n <= 9",
+                        " (p:2: 0 deviations only)" if quick else " (p:2 with a size-4 input: 0 deviations only)"),
             "sampled": "every non-empty subset",
             "sample_inputs": "(), (p:2), (p:2, q:3); for -inf fills (p:2, q:3) only when cells <= %d" % (6 if quick else 12),
             "draw_alternatives": "midpoint of every non-empty CDF interval, every interior boundary, 0.0, nextafter(1,0)",
